@@ -147,6 +147,11 @@ def random_network(rng, quick=True, force=None):
                 a, b = (name, other) if rev else (other, name)
                 spec["valves"].append({"name": ln, "start": a, "end": b, "diam": 0.3, "type": "TCV", "setting": _r(rng, 1, 50, 1),
                                        "minor_loss": rng.choice([0.0, 2.5])})
+    # rarely used hydraulic options that must not shift the reported state away from what the controls see
+    if force.get("odd_options", rng.random() < 0.5):
+        spec["options"]["specific_gravity"] = rng.choice([0.8, 1.2, 1.0])
+        spec["options"]["demand_multiplier"] = rng.choice([1.0, 1.0, 0.8, 1.3])
+        spec["options"]["viscosity"] = rng.choice([1.0, 1.0, 1.5])
     # the overflow flag ("always False for the WNTRSimulator": the limit controls must not depend on it)
     for tk in spec["tanks"]:
         if force.get("overflow", rng.random() < 0.25):
@@ -266,6 +271,20 @@ def random_network(rng, quick=True, force=None):
                 spec["controls"].append({"name": "c%d" % cid, "kind": "time", "time": k * hyd - off, "link": link, "value": val, "prio": prio})
                 cid += 1
     return spec
+
+
+def specific_gravity_spec(sg=0.8):
+    """seeded/C05-7: options that must not shift the REPORTED pressures / levels away from what the controls evaluate.  The
+    thresholds sit between the true value and the value scaled by the specific gravity: on a correct tree the conditions are idle."""
+    s = priority_conflict_spec(True)
+    s["options"].update({"specific_gravity": sg, "viscosity": 1.5, "demand_multiplier": 1.3})
+    if sg < 1.0:
+        s["controls"] = [{"name": "pj", "src": "J", "attr": "pressure", "rel": "lt", "thr": 36.0, "link": "PX", "value": "CLOSED", "prio": 3},
+                         {"name": "lt", "src": "T", "attr": "level", "rel": "le", "thr": 1.8, "link": "PT", "value": "CLOSED", "prio": 3}]
+    else:
+        s["controls"] = [{"name": "pj", "src": "J", "attr": "pressure", "rel": "gt", "thr": 44.0, "link": "PX", "value": "CLOSED", "prio": 3},
+                         {"name": "lt", "src": "T", "attr": "level", "rel": "ge", "thr": 2.3, "link": "PX", "value": "CLOSED", "prio": 3}]
+    return s
 
 
 def rule_level_spec(simple_too=True):
@@ -520,6 +539,9 @@ def build_wn(wntr, spec, report="ALL"):
     wn.options.time.rule_timestep = o["rule_timestep"]
     wn.options.time.report_timestep = report
     wn.options.hydraulic.trials = o.get("trials", 40)
+    for key in ("specific_gravity", "demand_multiplier", "viscosity"):
+        if o.get(key) is not None:
+            setattr(wn.options.hydraulic, key, o[key])
     if o.get("demand_model"):
         wn.options.hydraulic.demand_model = o["demand_model"]
         wn.options.hydraulic.required_pressure = 15.0
@@ -682,9 +704,20 @@ def run_instrumented(spec, report="ALL", wn=None, keep_wn=False):
     orig_gvc = core.WNTRSimulator._get_valve_controls
     tr.companions = {"P": [], "V": []}
 
+    orig_gcv = core.WNTRSimulator._get_cv_controls
+    tr.own = {"T": [], "C": [], "P": [], "V": []}
+
+    def _rec(which, orig):
+        def f(self):
+            out = orig(self)
+            tr.own[which] = list(out)
+            return out
+        return f
+
     def _comp(which, orig):
         def f(self):
             out = orig(self)
+            tr.own[which] = list(out)
             user = {id(c._condition): c for _, c in self._wn.controls()}
             for c in out:
                 a = c._then_actions[0]
@@ -844,7 +877,8 @@ def run_instrumented(spec, report="ALL", wn=None, keep_wn=False):
     core.WNTRSimulator._compute_next_timestep_and_run_presolve_controls_and_rules = pre
     core.WNTRSimulator._run_postsolve_controls = post
     hyd.save_results = save
-    core.WNTRSimulator._get_all_tank_controls = gatc
+    core.WNTRSimulator._get_all_tank_controls = _rec("T", gatc)
+    core.WNTRSimulator._get_cv_controls = _rec("C", orig_gcv)
     core.WNTRSimulator._get_pump_controls = _comp("P", orig_gpc)
     core.WNTRSimulator._get_valve_controls = _comp("V", orig_gvc)
     try:
@@ -862,6 +896,31 @@ def run_instrumented(spec, report="ALL", wn=None, keep_wn=False):
             if getattr(obj, "name", None) in names and attr in ("status", "setting", "base_speed"):
                 tr.tracked.append((names.index(obj.name), {"status": "S", "setting": "V", "base_speed": "P"}[attr]))
         tr.tracked = sorted(set(tr.tracked))
+        # registration order of the presolve / post-solve managers, as ids of the model's `simulatorControls`
+        try:
+            user = [c for _, c in wn.controls()]
+            ids_of = {id(c): k for k, c in enumerate(user)}
+            by_cond = {id(c._condition): k for k, c in enumerate(user)}
+            for i, c in enumerate(tr.own["T"]):
+                ids_of[id(c)] = 10000 + i
+            for i, c in enumerate(tr.own["C"]):
+                ids_of[id(c)] = 20000 + i
+            for which, base, cbase in (("P", 30000, 1000), ("V", 40000, 2000)):
+                n_int = 0
+                for c in tr.own[which]:
+                    if hasattr(c._then_actions[0], "_internal_attr"):
+                        ids_of[id(c)] = base + n_int
+                        n_int += 1
+                    else:
+                        ids_of[id(c)] = cbase + by_cond.get(id(c._condition), 999)
+            tr.order = {"pre": [ids_of.get(id(c), -1) for c in sim._presolve_controls._controls],
+                        "post": [ids_of.get(id(c), -1) for c in sim._postsolve_controls._controls],
+                        "counts": (len(tr.own["T"]), len(tr.own["C"]),
+                                   sum(1 for c in tr.own["P"] if hasattr(c._then_actions[0], "_internal_attr")),
+                                   sum(1 for c in tr.own["V"] if hasattr(c._then_actions[0], "_internal_attr"))),
+                        "user_link_only": all(getattr(a, "_target_obj", None) is not None and a._target_obj.name in names for c in user for a in c.actions())}
+        except Exception as e:  # noqa
+            tr.order = {"error": "%s: %s" % (type(e).__name__, e)}
     except NotImplementedError as e:
         tr.exception = "NotImplementedError: %s" % e
     except Exception as e:  # noqa
@@ -876,6 +935,7 @@ def run_instrumented(spec, report="ALL", wn=None, keep_wn=False):
         core.WNTRSimulator._get_all_tank_controls = orig_gatc
         core.WNTRSimulator._get_pump_controls = orig_gpc
         core.WNTRSimulator._get_valve_controls = orig_gvc
+        core.WNTRSimulator._get_cv_controls = orig_gcv
     if keep_wn:
         tr.wn = wn
     return tr
